@@ -149,3 +149,31 @@ Definition run_desig (sub : list (tree slog)) (ms : list (list N)) (query : bool
             | RFound c q lf _ => "R" ++ show_N (cid c) ++ (if q then "q" else "e") ++ "@" ++ show_bytes (node_name lf)
             | RFail e _ => "E" ++ show_Z e
             end.
+
+(* ---- kind conv (C07, C08): TryFrom<Token> of the first token of the lexed bytes ---- *)
+From VF Require Import Conv.
+From Coq Require Import Floats.SpecFloat.
+Inductive cty := CInt (t : ity) | CFloat (t : fty) | CBool | CBytes (t : bty).
+Fixpoint hex_of_Z_aux (n : nat) (z : Z) (acc : string) : string :=
+  match n with O => acc | S n' => hex_of_Z_aux n' (z / 16) (String (digit_char (Z.to_N (z mod 16))) acc) end.
+Definition show_res {A} (r : outcome (res A)) (f : A -> string) : string :=
+  match r with
+  | Panic s => "PANIC " ++ s
+  | Val (Ok a) => f a
+  | Val (Err e) => "E" ++ show_Z e
+  end.
+Definition conv_show (ty : cty) (t : token) : string :=
+  match ty with
+  | CInt it => show_res (conv_int it t) (fun z => "I" ++ show_Z z)
+  | CFloat ft => show_res (conv_float ft t)
+                   (fun v => "F" ++ hex_of_Z_aux (match ft with F32 => 8 | F64 => 16 end) (sf_bits ft v) "")
+  | CBool => show_res (conv_bool t) (fun b => if b then "B1" else "B0")
+  | CBytes bt => show_res (conv_bytes bt t) (fun s => "Y" ++ show_bytes s)
+  end.
+Definition run_conv (ty : cty) (input : list N) : string :=
+  match tokenize_params input with
+  | Panic s => "PANIC " ++ s
+  | Val [] => "-"
+  | Val (IErr e :: _) => "L" ++ show_Z e
+  | Val (IOk t :: _) => if is_data t then conv_show ty t else "N"
+  end.
